@@ -43,10 +43,10 @@ type Session struct {
 }
 
 type BrokerOpts struct {
-	DeliverOnRel bool                        // forward exactly-once messages on PUBREL rather than on PUBLISH
-	Refuse       func(n int) byte            // CONNACK return code for the n-th CONNECT (0 = accept)
+	DeliverOnRel bool                             // forward exactly-once messages on PUBREL rather than on PUBLISH
+	Refuse       func(n int) byte                 // CONNACK return code for the n-th CONNECT (0 = accept)
 	SubCode      func(filter string, q byte) byte // SUBACK return code policy
-	Mute         bool                        // consume but never answer (withheld acknowledgements)
+	Mute         bool                             // consume but never answer (withheld acknowledgements)
 }
 
 type Broker struct {
@@ -58,9 +58,9 @@ type Broker struct {
 	ProtoErr []string // protocol violations by the client
 	st       map[int]*bconn
 	// Hold: when set, responses are held back in Held instead of being queued
-	Hold func(c *Conn, p Packet) bool
-	Held []HeldPkt
-	OnIn func(c *Conn, p *Packet) // observer of every consumed client packet
+	Hold          func(c *Conn, p Packet) bool
+	Held          []HeldPkt
+	OnIn          func(c *Conn, p *Packet) // observer of every consumed client packet
 	HandshakeHook func(c *Conn) bool
 }
 
